@@ -206,8 +206,11 @@ impl Core {
 
                 self.cache_iterative_query(&query, closest_nodes);
 
-                should_ping_alleged_new_address =
-                    self.update_address_votes_from_iterative_query(&query);
+                // Several queries can be done in the same tick, don't let a later one
+                // (that agrees with the address we just adopted) cancel the ping.
+                if let Some(address) = self.update_address_votes_from_iterative_query(&query) {
+                    should_ping_alleged_new_address = Some(address);
+                }
             };
         }
 
